@@ -35,11 +35,15 @@ impl Run {
 
     // Copy all current state into the file.
     pub(crate) fn save(&mut self) -> Result<(), MonorailError> {
+        // Write a temporary file and rename it into place. Truncating and rewriting the file
+        // in place would leave an empty or partial run pointer behind if the process died in
+        // between, after which neither `result show` nor the next `run` could parse it.
+        let tmp_path = self.path.with_extension("json.tmp");
         let mut file = fs::OpenOptions::new()
             .write(true)
             .truncate(true)
             .create(true)
-            .open(&self.path)?;
+            .open(&tmp_path)?;
         #[cfg(pnordahl_monorail_verif)]
         crate::verif::point("pointer.post_truncate");
 
@@ -47,6 +51,8 @@ impl Run {
         file.write_all(&data)?;
         #[cfg(pnordahl_monorail_verif)]
         crate::verif::point("pointer.post_write");
+        drop(file);
+        fs::rename(&tmp_path, &self.path)?;
         Ok(())
     }
 }
